@@ -402,13 +402,13 @@ func viewsMain(args []string) error {
 		for k := 0; k < n; k++ {
 			switch rng.Intn(10) {
 			case 0:
-				h = append(h, vpOp{Op: "ScrollUp", N: rng.Intn(12)})
+				h = append(h, vpOp{Op: "ScrollUp", N: rng.Intn(16) - 4})
 			case 1:
-				h = append(h, vpOp{Op: "ScrollDown", N: rng.Intn(12)})
+				h = append(h, vpOp{Op: "ScrollDown", N: rng.Intn(16) - 4})
 			case 2:
-				h = append(h, vpOp{Op: "ScrollLeft", N: rng.Intn(12)})
+				h = append(h, vpOp{Op: "ScrollLeft", N: rng.Intn(16) - 4})
 			case 3:
-				h = append(h, vpOp{Op: "ScrollRight", N: rng.Intn(12)})
+				h = append(h, vpOp{Op: "ScrollRight", N: rng.Intn(16) - 4})
 			case 4:
 				h = append(h, vpOp{Op: "Center", X: c(), Y: c()})
 			case 5:
